@@ -447,4 +447,46 @@ theorem louds_after_first (sizes : List Nat) (n : Nat) (hpos : ∀ s ∈ sizes, 
     obtain ⟨m, hm⟩ : ∃ m, sizes[n] - 1 = m + 1 := ⟨sizes[n] - 2, by omega⟩
     rw [hm, List.replicate_succ]; simp
 
+/-- the bit after the i-th label of a node is set (or the vector ends) exactly when it is the
+node's last label -/
+theorem louds_after_index (sizes : List Nat) (n i : Nat) (hpos : ∀ s ∈ sizes, 1 ≤ s) (hn : n < sizes.length)
+    (hi : i < sizes[n]) :
+    (((sizes.take n).sum + i == (loudsOfSizes sizes).length - 1) ||
+      (loudsOfSizes sizes).getD ((sizes.take n).sum + i + 1) false) = (i + 1 == sizes[n]) := by
+  have hle := sum_take_add_le sizes n hn
+  have hdrop := drop_loudsOfSizes sizes n hpos hn
+  have hgetD : (loudsOfSizes sizes).getD ((sizes.take n).sum + i + 1) false =
+      (List.replicate (sizes[n] - 1) false ++ loudsOfSizes (sizes.drop (n + 1))).getD i false := by
+    rw [← hdrop, List.getD_eq_getElem?_getD, List.getD_eq_getElem?_getD, List.getElem?_drop]
+    congr 2; omega
+  rw [hgetD, length_loudsOfSizes]
+  by_cases h1 : i + 1 = sizes[n]
+  · have hbeq : (i + 1 == sizes[n]) = true := by simp [h1]
+    rw [hbeq]
+    have hrep : (List.replicate (sizes[n] - 1) false ++ loudsOfSizes (sizes.drop (n + 1))).getD i false =
+        (loudsOfSizes (sizes.drop (n + 1))).getD 0 false := by
+      rw [List.getD_eq_getElem?_getD, List.getD_eq_getElem?_getD, List.getElem?_append_right (by simp; omega)]
+      congr 2; simp; omega
+    rw [hrep]
+    cases hd : sizes.drop (n + 1) with
+    | nil =>
+      have hsum : sizes.sum = (sizes.take n).sum + sizes[n] := by
+        have := sum_split sizes n hn
+        rw [hd] at this
+        simpa using this
+      have : ((sizes.take n).sum + i == sizes.sum - 1) = true := by
+        rw [hsum]; simp; omega
+      simp [this]
+    | cons s' r' =>
+      have hs' : 1 ≤ s' := hpos s' (List.mem_of_mem_drop (by rw [hd]; exact List.mem_cons_self ..))
+      obtain ⟨m, rfl⟩ : ∃ m, s' = m + 1 := ⟨s' - 1, by omega⟩
+      rw [loudsOfSizes_cons]; simp
+  · have hlt : i < sizes[n] - 1 := by omega
+    have hne : ((sizes.take n).sum + i == sizes.sum - 1) = false := by
+      simp; omega
+    have hbeq : (i + 1 == sizes[n]) = false := by simp [h1]
+    rw [hne, hbeq]
+    rw [List.getD_eq_getElem?_getD, List.getElem?_append_left (by simpa using hlt)]
+    simp [hlt]
+
 end LinVerif.Lemmas.C20
